@@ -24,6 +24,11 @@ def norm_label(label):
     return label.replace('$', '').upper()
 
 
+def _part_labels(cell):
+    # the row and column descriptors carry the spelling of their own part of the label (upper-case letters, digits)
+    return (getattr(cell.row, 'label', None), getattr(cell.col, 'label', None))
+
+
 class Env(object):
     """A parser plus the host side: variables, cell/range tables, custom functions, event log."""
 
@@ -47,14 +52,15 @@ class Env(object):
 
     def _cell(self, cell, setter):
         if self.record:
-            self.log.append(('cell', cell.label, cell.row.index, cell.col.index, cell.row.is_absolute, cell.col.is_absolute))
+            self.log.append(('cell', cell.label, cell.row.index, cell.col.index, cell.row.is_absolute, cell.col.is_absolute, _part_labels(cell)))
         key = norm_label(cell.label)
         if key in self.cells:
             setter(self.cells[key])
 
     def _range(self, start, end, setter):
         if self.record:
-            self.log.append(('range', start.label, start.row.index, start.col.index, end.label, end.row.index, end.col.index))
+            self.log.append(('range', start.label, start.row.index, start.col.index, end.label, end.row.index, end.col.index,
+                             start.row.is_absolute, start.col.is_absolute, end.row.is_absolute, end.col.is_absolute, _part_labels(start), _part_labels(end)))
         key = '%s:%s' % (norm_label(start.label), norm_label(end.label))
         if key in self.ranges:
             setter(self.ranges[key])
@@ -178,6 +184,9 @@ def reset_shared_errors():
         if e is not None:
             try:
                 e.__traceback__ = None
+                e.__cause__ = None          # host callbacks of earlier cases may have chained the shared objects ("raise X from exc")
+                e.__context__ = None
+                e.__suppress_context__ = False
             except Exception:
                 pass
 
